@@ -256,3 +256,65 @@ Definition get_template_counts (spike_clusters spike_templates : list Z) (n_temp
   | None => None
   | Some st => bincount st n_templates
   end.
+
+(* ---------- stage 3: the integer dtype made explicit ---------- *)
+(* An integer dtype is its value range [dt_lo, dt_hi]: [0, 2^w - 1] (unsigned) or
+   [-2^(w-1), 2^(w-1) - 1] (signed).  NumPy integer arithmetic inside one dtype is modular:
+   the exact result is reduced into the range modulo dt_hi - dt_lo + 1. *)
+Record dtype := mkdt { dt_lo : Z; dt_hi : Z }.
+Definition dt_mod (dt : dtype) : Z := dt_hi dt - dt_lo dt + 1.
+Definition wrap (dt : dtype) (x : Z) : Z := dt_lo dt + (x - dt_lo dt) mod dt_mod dt.
+
+Definition uint8 := mkdt 0 255.
+Definition int8 := mkdt (-128) 127.
+Definition uint16 := mkdt 0 65535.
+Definition uint32 := mkdt 0 4294967295.
+Definition int32 := mkdt (-2147483648) 2147483647.
+Definition int64 := mkdt (-9223372036854775808) 9223372036854775807.
+
+(* np.diff(l) computed in the dtype of l *)
+Fixpoint diff_from_dt (dt : dtype) (prev : Z) (l : list Z) : list Z :=
+  match l with [] => [] | x :: r => wrap dt (x - prev) :: diff_from_dt dt x r end.
+(* diff = np.empty_like(l); diff[0] = 1; diff[1:] = np.diff(l) : every cell has the dtype of l *)
+Definition first_diff_dt (dt : dtype) (l : list Z) : list Z :=
+  match l with [] => [] | x :: r => wrap dt 1 :: diff_from_dt dt x r end.
+
+(* _spikes_per_cluster on a spike_clusters array of dtype dt: the same lines as spikes_per_cluster,
+   with the one arithmetic operation on ids (the first difference) taken in the dtype *)
+Definition spikes_per_cluster_dt (dt : dtype) (sc : list Z) (spike_ids : option (list Z))
+  : option (list group) :=
+  match sc with
+  | [] => Some []
+  | _ :: _ =>
+      let ids := match spike_ids with Some l => l | None => arange (length sc) end in
+      let rel := stable_argsort sc in
+      match gather ids rel, gather sc rel with
+      | Some abs, Some scs =>
+          let idx := nonzero (map (fun d => 0 <? d) (first_diff_dt dt scs)) in
+          match gather scs idx with
+          | Some clusters =>
+              match clusters with
+              | [] => None
+              | _ :: _ => Some (spc_dict clusters idx abs [])
+              end
+          | None => None
+          end
+      | _, _ => None
+      end
+  end.
+
+(* _index_of with the table size computed as the code does: lookup is cast to int32 (dt = int32), so
+   m = lookup.max() + 1 and m + 1 are int32 scalar additions (they wrap, with a RuntimeWarning);
+   for an empty lookup m = 0 + 1 is a Python int *)
+Definition index_of_dt (dt : dtype) (arr lookup : list Z) : option (list Z) :=
+  let m := match lookup with [] => 1 | x :: r => wrap dt (fold_right Z.max x r + 1) end in
+  let n := match lookup with [] => m + 1 | _ :: _ => wrap dt (m + 1) end in
+  if n <? 0 then None else                                   (* np.zeros(negative): ValueError *)
+  match py_set (repeat 0 (Z.to_nat n)) (-1) (-1) with        (* tmp[-1] = -1 *)
+  | None => None
+  | Some tmp =>
+      match py_scatter tmp (combine lookup (arange (length lookup))) with
+      | None => None
+      | Some tmp' => py_gather tmp' arr
+      end
+  end.
